@@ -102,11 +102,14 @@ CHECKS = {
                 "coordinates, any index lists, shifts and occupancy) is executable and returns every atom; every accepted rearrange call whose parking "
                 "coordinates are pairwise different and whose destination is vacant delivers zone[src] to zone[dst]; 'every accepted rearrange call is "
                 "executable' is REFUTED in Coq with a witness (pair pitch 6: known finding). "
+                "PROVED for moves played in several legs (move_by_waypoints with pick on the first call and drop on the last): consecutive paths glued at "
+                "the waypoint they share simulate EXACTLY like the sequence of legs, from every state (merge_legs_sound), so the transport theorem "
+                "applies through the recogniser legs_transport_ok, evaluated in Coq on every two- and three-leg call. "
                 "PROVED too (AodPre.v): the documented preconditions (positive spacings, ascending in-range index lists) imply the hypotheses of those "
                 "theorems, and when the played path starts on zone[src_x, src_y] and ends on zone[dst_x, dst_y] (documented_transport, evaluated in Coq "
                 "for every accepted valid rearrange call) the atom of zone[src_x[i], src_y[j]] ends on zone[dst_x[i], dst_y[j]]. "
-                "DECIDED BY ENUMERATION for the rest (multi-leg waypoint transports, the meaning of the pick/drop flags, that the recognised "
-                "paths' grids are the documented source/destination sites, gemini.logical.gr_zero_to_one) and for invalid inputs: run on the layout the module "
+                "DECIDED BY ENUMERATION for the rest (the meaning of a single pick/drop flag, which grids the waypoint and Gemini moves "
+                "compute, gemini.logical.gr_zero_to_one) and for invalid inputs: run on the layout the module "
                 "builds for all layout sizes/spacings and index lists within the stated bounds (plus unsorted, duplicate, out-of-range, negative, "
                 "empty lists); each accepted call's played paths go through the simulator with the compatible occupancy; valid input must be "
                 "accepted, executable and end where the docstring says, invalid input must be rejected or still be executable. The Gallina "
